@@ -3,6 +3,9 @@
 From Coq Require Import Reals List.
 From Interval Require Import Tactic.
 From LV Require Import Analytic.Gibbs.
+(* the source tie's support library (tools/py2gallina_c13.py, harness/lv/c13_tie.py) is built with this file;
+   Require without Import: nothing of it is visible in the correspondence shards *)
+From LV Require Analytic.GenC13Tie.
 Import ListNotations.
 Open Scope R_scope.
 
